@@ -6,6 +6,7 @@ use std::collections::{BTreeMap, BTreeSet};
 use std::io::Write;
 use std::process::{Command, Stdio};
 
+pub mod c01m;
 pub mod c02;
 pub mod c03;
 pub mod c04;
@@ -343,7 +344,28 @@ pub fn main() {
     let opts = parse_args();
     silence_panics();
     let report = match opts.property.as_str() {
-        "C01" | "C11" | "C12" => prove::run(&opts, &opts.property.clone()),
+        "C01" => {
+            // handler histories + the section layout decision alone (`check_if_response_is_matched`
+            // with requested difficulties and boundaries placed on the block boundaries); a replay
+            // file goes to the run(s) whose case lines it contains
+            let text = opts
+                .replay
+                .as_ref()
+                .map(|p| std::fs::read_to_string(p).unwrap_or_default());
+            let has = |key: &str| {
+                text.as_ref()
+                    .map(|t| t.lines().any(|l| l.split_whitespace().next() == Some(key)))
+                    .unwrap_or(true)
+            };
+            let with_matched = has("matched-seed");
+            let with_histories = has("history-seed") || !with_matched;
+            let mut r = if with_histories { prove::run(&opts, "C01") } else { c01m::run(&opts) };
+            if with_histories && with_matched {
+                r.merge(c01m::run(&opts));
+            }
+            r
+        }
+        "C11" | "C12" => prove::run(&opts, &opts.property.clone()),
         "C05" => {
             // honest-only handler histories + the completeness of the difficulty checks every
             // honest proof depends on (the function-level differential run of C14, whose
